@@ -1,12 +1,14 @@
 use crate::report::Opts;
 
 mod c01;
+mod c02;
 mod c09;
 mod c18;
 
 pub fn run(opts: &Opts) -> i32 {
     match opts.prop.as_str() {
         "C01" => c01::run(opts),
+        "C02" => c02::run(opts),
         "C09" => c09::run(opts),
         "C18" => c18::run(opts),
         other => {
